@@ -170,8 +170,14 @@ def ims_case(t0, value, kind):
     return Case("ims.decide", xl(xn(t0), xb(value)), None, {"kind": kind, "ood": near})
 
 
+REFUSES_IDENTITY = re.compile(rb"(?i)accept-encoding[^\n]*(identity|\*)")
+
+
 def path_case(data, kind, sched=(), profile="dev", no_default=False):
-    return Case("c02.path", xl(xbool(profile == "dev"), xb(data), xlist([xn(s) for s in sched]), xbool(no_default)), None, {"kind": kind}, profile)
+    # request_path gives the page as its representations per Accept-Encoding class (C09's abstraction): a value that can refuse the
+    # identity encoding (406 from clone_preferred, C06's subject) is outside it — not compared
+    return Case("c02.path", xl(xbool(profile == "dev"), xb(data), xlist([xn(s) for s in sched]), xbool(no_default)), None,
+                {"kind": kind, "ood": bool(REFUSES_IDENTITY.search(data))}, profile)
 
 
 def path_head(rng):
@@ -724,10 +730,11 @@ SEEN_LIVE = set()
 
 
 def out_of_domain(c, i):
+    if has_panic(c, i):
+        return False                      # a panic is never out of domain: the model-independent oracle must see it
     if c.comp == "stream.window" and c.x[1][1][1]:
         # whether file.seek(start) succeeds for 2^31 <= start < 2^63 is the file system's business (s_maxbytes);
         # beyond i64::MAX it always fails, below 2^31 it always succeeds: only those are compared
-        import re
         m = re.match(rb"bytes=\+?(\d+)-", c.x[1][1][1][0][1])
         if m and 2 ** 31 <= int(m.group(1)) < 2 ** 63:
             return True
@@ -848,6 +855,8 @@ ASSUMPTIONS = [
     "the hypothesis of limiter_never_panics); Prepare/Present/Package/Post extensions other than the modelled ones, TLS, HTTP/2, HTTP/3, WebSockets, "
     "the compressors and the crates http/h2/rustls/moka/tokio are outside the theorems (exploration only)",
     "bodies fit in memory (length < 2^64), the hypothesis of range_never_panics (page_fits)",
+    "c02.path: an Accept-Encoding value that names identity or * (it may refuse the identity encoding: 406 from clone_preferred, decided by C06) is outside "
+    "request_path's page-per-encoding-class abstraction and is not compared (a panic is never out of domain: the no-panic oracle still applies)",
     "stream.window: whether seeking a file to an offset in [2^31, 2^63) succeeds depends on the file system; those starts are out of domain "
     "(the model's seek fails exactly beyond i64::MAX); stream_body_never_panics: every read returns at most the 64 KiB buffer and file offsets stay "
     "below 2^63 (what the kernel guarantees)",
